@@ -561,10 +561,11 @@ impl G {
         self.current = if plain { None } else { Some(name.clone()) };
         let kind = match control {
             Some(k) => k,
-            None => match self.rng.below(9) {
+            None => match self.rng.below(10) {
                 0..=4 => 0,
                 5..=7 => 1,
-                _ => 2,
+                8 => 2,
+                _ => 3,
             },
         };
         match kind {
@@ -686,6 +687,55 @@ impl G {
                 let def = Def::Enum(EnumDef { name: name.clone(), tag, variants: variants.iter().map(|v| v.2.clone()).collect(), deny, validate });
                 let source = format!("{src}{}", proj_impl_enum(&name, &variants.iter().map(|v| (v.0.clone(), v.3.clone())).collect::<Vec<_>>()));
                 Program { name, source, def, tags, reqs: r2, control: plain }
+            }
+            3 => {
+                // container-level from / try_from (by value or by reference) of an arbitrary intermediate type,
+                // optionally followed by validate; the wrapper keeps the projection of what it was built from
+                self.current = None;
+                let (inter, mut r2) = self.ty(1);
+                let by_ref = self.rng.chance(1, 2);
+                let is_try = self.rng.chance(1, 2);
+                let validate = match self.rng.below(3) {
+                    0 => None,
+                    1 => Some("val_leaves".to_string()),
+                    _ => Some("val_ok".to_string()),
+                };
+                let f = format!("conv_{}", name.to_lowercase());
+                let ity = rust_ty(&inter);
+                let arg = if by_ref { format!("&{ity}") } else { ity.clone() };
+                let mut attrs = vec![];
+                if is_try {
+                    attrs.push(format!("try_from({arg}) = {f} -> subjects::vf::Empty"));
+                    r2.insert("Empty");
+                } else {
+                    attrs.push(format!("from({arg}) = {f}"));
+                }
+                if let Some(v) = &validate {
+                    attrs.push(format!("validate = subjects::vf::{v} -> subjects::vf::ValErr"));
+                    r2.insert("ValErr");
+                }
+                for r in &r2 {
+                    let path = if *r == "Rec2" { "monitor::Rec2".to_string() } else { format!("subjects::vf::{r}") };
+                    attrs.push(format!("where_predicate = __Deserr_E: deserr::MergeWithError<{path}>"));
+                }
+                self.rng.shuffle(&mut attrs);
+                let mut src = String::new();
+                src.push_str("#[derive(deserr::Deserr, Debug)]\n");
+                src.push_str(&self.attr_lines(&attrs, ""));
+                let _ = writeln!(src, "pub struct {name}(pub vcore::Proj);");
+                let (fname, body_ok) = if is_try { ("try_wrap_l3", format!("Ok({name}(p))")) } else { ("wrap_id", format!("{name}(p)")) };
+                let ret = if is_try { format!("Result<{name}, subjects::vf::Empty>") } else { name.clone() };
+                let _ = writeln!(src, "fn {f}(x: {arg}) -> {ret} {{");
+                let _ = writeln!(src, "    use monitor::ToProj;\n    let p = x.to_proj();");
+                let _ = writeln!(src, "    monitor::log_call(\"{fname}\", format!(\"{{p:?}}\"), None);");
+                if is_try {
+                    let _ = writeln!(src, "    if p.leaves() % 3 == 0 {{\n        return Err(subjects::vf::Empty(format!(\"{{}} leaves\", p.leaves())));\n    }}");
+                }
+                let _ = writeln!(src, "    {body_ok}\n}}");
+                let _ = writeln!(src, "impl monitor::ToProj for {name} {{\n    fn to_proj(&self) -> vcore::Proj {{\n        self.0.clone()\n    }}\n}}");
+                let conv = if is_try { Conv::TryFrom(fname.into()) } else { Conv::From(fname.into()) };
+                let def = Def::Conv(ConvDef { name: name.clone(), inter, conv, validate });
+                Program { name, source: src, def, tags: vec!["generated", "derive", "conv", "container-conv"], reqs: r2, control: plain }
             }
             _ => {
                 let nv = 1 + self.rng.below(6);
